@@ -180,3 +180,18 @@ pub fn contract_date_to_days(y: i32, m: u32, d: u32, is_ok: bool, k: i32) -> boo
     let ok = spec_valid(y, m, d) && spec_in_range(y, m, d);
     is_ok == ok && (!ok || k as i64 == spec_rd(y, m, d))
 }
+
+// ---------------------------------------------------------------- contracts of the two instant <-> (day, nanos) kernels
+/// days_nanos_to_nanos(d, n) is the instant d * 24h + n
+pub fn contract_days_nanos_to_nanos(d: i32, n: u64, r: i128) -> bool {
+    r == inst(d, n)
+}
+/// nanos_to_days_nanos(t): Ok((floor(t / 24h), t mod 24h)) exactly when the day fits i32, OutOfRange otherwise
+pub fn contract_nanos_to_days_nanos(t: i128, is_ok: bool, d: i32, n: u64) -> bool {
+    let ok = in_range(t);
+    is_ok == ok && (!ok || (d as i128 == fdiv128(t, NPD) && n as i128 == fmod128(t, NPD)))
+}
+/// nanos_to_time(n) for a time of day n: the mixed-radix digits (hour, minute, second) of n's whole seconds
+pub fn contract_nanos_to_time(n: u64, h: u32, m: u32, s: u32) -> bool {
+    n as i128 >= NPD || (h < 24 && m < 60 && s < 60 && h as u64 * 3600 + m as u64 * 60 + s as u64 == n / 1_000_000_000)
+}
